@@ -85,7 +85,7 @@ static void run(Ctx& c) {
     World w(sh);
     forest* f = makeForest(w.dom, fs);
     int n = sh.n();
-    std::vector<Val> alpha = alphabet(r, fs);
+    std::vector<Val> alpha = alphabet(r, fs, true, false, true);   // includes values below the terminal precision (known class for rel/MT/real/IR)
     std::string sampleOps;
     uint64_t sig = 0;
     int nsub = r.range(3, 8);
@@ -97,6 +97,7 @@ static void run(Ctx& c) {
         Table expect(size_t(w.tableSize(rel)));
         std::string desc;
         std::string keyop;
+        std::vector<Val> usedValues;
         if (what < 3) {
             // ---- single minterm with default --------------------------------------------
             keyop = "minterm.buildFunction";
@@ -107,6 +108,7 @@ static void run(Ctx& c) {
             minterm m(f);
             fillLib(mm, rel, n, m);
             desc = "buildFunction " + mmStr(mm, rel, n) + " default=" + dv.str();
+            usedValues.push_back(mm.value); usedValues.push_back(dv);
             m.buildFunction(toRV(dv), e);
             for (size_t i = 0; i < expect.size(); i++) {
                 if (!rel) { sh.decode(long(i), a); b = a; } else { sh.decode(long(i) / w.N, a); sh.decode(long(i) % w.N, b); }
@@ -158,6 +160,8 @@ static void run(Ctx& c) {
             for (size_t i = 0; i < mms.size() && i < 12; i++) desc += mmStr(mms[i], rel, n);
             if (mms.size() > 12) desc += "...";
             desc += "} default=" + dv.str();
+            for (auto& mm : mms) usedValues.push_back(mm.value);
+            usedValues.push_back(dv);
             if (useMin) mc.buildFunctionMin(toRV(dv), e); else mc.buildFunctionMax(toRV(dv), e);
             for (size_t i = 0; i < expect.size(); i++) {
                 if (!rel) { sh.decode(long(i), a); b = a; } else { sh.decode(long(i) / w.N, a); sh.decode(long(i) % w.N, b); }
@@ -176,6 +180,7 @@ static void run(Ctx& c) {
             keyop = "createConstant";
             Val v = randomValue(r, fs, alpha);
             desc = "createConstant " + v.str();
+            usedValues.push_back(v);
             f->createConstant(toRV(v), e);
             for (auto& x : expect) x = v;
             c.count("constant");
@@ -193,6 +198,7 @@ static void run(Ctx& c) {
                 rterms.push_back(toRV(terms[size_t(i)]));
             }
             desc = "createEdgeForVar v=" + tos(v) + (pr ? "'" : "") + (withTerms ? " terms=" + tableStr(terms) : " (identity terms)");
+            for (auto& x : terms) usedValues.push_back(x);
             if (withTerms) f->createEdgeForVar(v, pr, rterms.data(), e);
             else f->createEdgeForVar(v, pr, e);
             for (size_t i = 0; i < expect.size(); i++) {
@@ -211,13 +217,23 @@ static void run(Ctx& c) {
                             desc + " in " + fs.str() + " shape " + sh.str() + ": at " + pointStr(w, rel, size_t(d)) +
                             " library=" + got[size_t(d)].str() + " model=" + expect[size_t(d)].str());
         }
+        // the forest is canonical after every construction (C02 clauses), not only at the end
+        try { AuditOpts ao; ao.refcounts = false; ao.cachecounts = false; auditForest(f, fs.kindStr(), c, "C03", ao); }
+        catch (Violation& v) {
+            // known class: MT-real identity-reduced relations with non-zero values below half the terminal precision (they round to 0 inside nodes)
+            bool tiny = false;
+            if (fs.isMT() && fs.isReal()) for (const Val& x : usedValues) if (x.k == Val::R && x.r != 0 && std::fabs(x.r) < 5e-6) tiny = true;
+            std::string clause = v.key.substr(v.key.find(":audit:") + 7); clause = clause.substr(0, clause.rfind(':'));
+            if (tiny && rel && fs.rr == reduction_rule::IDENTITY_REDUCED) throw Violation("C03:rel/MT/real/IR:values-below-half-terminal-precision:not-canonical:" + clause, desc + " in " + fs.str() + " shape " + sh.str() + ": " + v.detail);
+            throw Violation("C03:" + keyop + ":not-canonical:" + clause + ":" + fs.kindStr(), desc + " in " + fs.str() + " shape " + sh.str() + ": " + v.detail);
+        }
         sig = sig * 1000003ULL ^ tableHash(expect) ^ hashstr(keyop.c_str());
         bool nonconst = false; for (auto& x : expect) if (!valEq(x, expect[0])) nonconst = true;
         if (nonconst) c.nontrivial = true;
         if (sampleOps.size() < 600) sampleOps += desc + "; ";
     }
     // the forest left behind by the constructions must be canonical, with exact counts (C02/C06 clauses)
-    auditForest(f, fs.kindStr(), c, "C03");
+    auditForest(f, fs.kindStr(), c, "C03");   // (per-construction audits above already passed; this adds the exact counts M2/M3)
     c.sig = tos(sig ^ hashstr(fs.str().c_str()) ^ hashstr(sh.str().c_str()));
     c.count(std::string("kind:") + fs.kindStr());
     c.count(std::string("policy:") + fs.polStr());
